@@ -300,6 +300,12 @@ func runC17(r *Run, p *Prog) {
 		}
 		r.Floor("D7", 3)
 	})
+	// ---- D9: error discipline inside the context-aware wrapper (errdisc.go): a deadline that could not be set, a failed
+	// read or write is never reported as success
+	r.Guard("D9", func() {
+		errorDiscipline(r, p, T, "D9", p.FuncsOf(pkgCtxio))
+		r.Floor("D9", 5)
+	})
 	// ---- D5
 	r.Guard("D5", func() {
 		for _, l := range ro.ConnLoop {
